@@ -1,2 +1,130 @@
-(* C07 — tag selectors match exactly the right series; every ingested label is listed.  Headline theorems only. *)
-From Pyro Require Import Model.Base Model.Dimension Model.Labels Model.Index.
+(* C07 — tag selectors match exactly the right series; every ingested label is listed.  Headline theorems only.
+
+   Vocabulary: a dimension is a list of keys; ssorted = strictly increasing w.r.t. bytes.Compare (sorted and
+   duplicate-free).  intersection_gen srt true is the cursor machine of dimension.Intersection with `srt`
+   standing for sort.Sort; `intersection` instantiates it with Go's insertion sort.  An index state is
+   ix_run ops for a history ops of IPut K stack count / IDelete Q (Model/Index.v); live ops is the list of
+   series ingested and not deleted since, computed from the history alone; sub_labels Q K = every pair of Q
+   is a pair of K.  key_ok K (Proofs/IndexProofs.v): K has the shape ParseKey produces, its __name__ value has
+   no '{' (C15 finding reserved-name-brace) and no tag NAME contains ':' (values may). *)
+From Pyro Require Import Model.Base Model.Key Model.Dimension Model.Labels Model.Index.
+From Pyro Require Import Proofs.BcmpProofs Proofs.KeyProofs Proofs.DimensionProofs Proofs.IndexProofs.
+From Coq Require Import Permutation.
+
+(* --- Intersection: any number of sorted duplicate-free inputs of any length, whatever permutation the sort returns --- *)
+Theorem intersection_spec_any_sort : forall srt, (forall l, Permutation (srt l) l) ->
+  forall input, Forall ssorted input ->
+  exists r, intersection_gen srt true input = Some r /\ ssorted r /\
+            (input <> [] -> forall k, In k r <-> Forall (In k) input).
+Proof. exact intersection_gen_spec. Qed.
+Print Assumptions intersection_spec_any_sort.
+
+Theorem intersection_spec : forall input, Forall ssorted input ->
+  exists r, intersection input = Some r /\ ssorted r /\
+            (input <> [] -> forall k, In k r <-> Forall (In k) input).
+Proof. exact DimensionProofs.intersection_spec. Qed.
+Print Assumptions intersection_spec.
+
+Theorem intersection_is_filter : forall d ds, Forall ssorted (d :: ds) ->
+  intersection (d :: ds) = Some (filter (fun k => forallb (d_mem k) ds) d).
+Proof. exact intersection_filter. Qed.
+Print Assumptions intersection_is_filter.
+
+Example intersection_spec_nonvacuous :
+  let input := [[[1]; [3]; [5]; [7]]; [[2]; [3]; [7]]; [[0]; [3]; [4]; [7]; [8]]] in
+  Forall ssorted input /\ intersection input = Some [[3]; [7]].
+Proof. split; [repeat constructor|vm_compute; reflexivity]. Qed.
+
+(* regression for D2: the rule before the fix (every cursor moves on after a round) loses key 3 *)
+Theorem intersection_unfixed_refuted : exists input, Forall ssorted input /\ input <> [] /\
+  exists r k, intersection_unfixed input = Some r /\ Forall (In k) input /\ ~ In k r.
+Proof. exact DimensionProofs.intersection_unfixed_refuted. Qed.
+Print Assumptions intersection_unfixed_refuted.
+
+Example intersection_old_rule_loses_3 :
+  intersection_unfixed [[[1]; [3]]; [[2]; [3]]] = Some [] /\ intersection [[[1]; [3]]; [[2]; [3]]] = Some [[3]].
+Proof. exact intersection_unfixed_loses_key. Qed.
+Print Assumptions intersection_old_rule_loses_3.
+
+Theorem union_spec : forall input,
+  (forall k, In k (union input) <-> Exists (In k) input) /\
+  (Forall (@NoDup dkey) input -> NoDup (union input)).
+Proof. exact DimensionProofs.union_spec. Qed.
+Print Assumptions union_spec.
+
+Theorem insert_delete_keep_sorted_sets : forall k d, ssorted d ->
+  ssorted (d_insert k d) /\ (forall x, In x (d_insert k d) <-> x = k \/ In x d) /\
+  ssorted (d_delete k d) /\ (forall x, In x (d_delete k d) <-> In x d /\ x <> k).
+Proof.
+  exact (fun k d H => conj (d_insert_sorted k d H) (conj (d_insert_In k d)
+          (conj (d_delete_sorted k d H) (fun x => d_delete_In k d x H)))).
+Qed.
+Print Assumptions insert_delete_keep_sorted_sets.
+
+(* --- the index over any history of ingests and deletes --- *)
+Theorem dimension_inv : forall ops, Forall op_ok ops ->
+  let st := ix_run ops in
+  Forall key_ok (live ops) /\
+  (forall n, ssorted (dm_get n (ix_dims st))) /\
+  (forall n x, In x (dm_get n (ix_dims st)) <->
+               exists K, In K (live ops) /\ x = normalized K /\ In n (names K)) /\
+  (forall x, seg_mem x (ix_segs st) = true <-> exists K, In K (live ops) /\ x = normalized K).
+Proof.
+  exact (fun ops H => let I := IndexProofs.dimension_inv ops H in
+         conj (inv_ok _ _ I) (conj (inv_sorted _ _ I) (conj (inv_dims _ _ I) (inv_segs _ _ I)))).
+Qed.
+Print Assumptions dimension_inv.
+
+(* Full statement (any tag names) is FALSE of the code: see C07_selector_colon_refuted.  Proved with key_ok. *)
+Theorem C07_selector_exact : forall ops Q, Forall op_ok ops -> key_ok Q ->
+  exists r, ix_select_series Q (ix_run ops) = Some r /\ NoDup r /\
+            (forall x, In x r <-> exists K, In K (live ops) /\ sub_labels Q K = true /\ x = normalized K).
+Proof. exact selector_exact. Qed.
+Print Assumptions C07_selector_exact.
+
+Theorem C07_selector_colon_refuted :
+  let ops := [IPut colon_K1 [115; 48] 1; IPut colon_K2 [115; 49] 2] in
+  sub_labels colon_K2 colon_K1 = false /\
+  exists r, ix_select_series colon_K2 (ix_run ops) = Some r /\ In (normalized colon_K1) r.
+Proof. exact selector_colon_refuted. Qed.
+Print Assumptions C07_selector_colon_refuted.
+
+(* any string whose parse has no '{' in the name and no ':' in a tag name is admitted *)
+Theorem C07_names_admitted : forall s,
+  has c_lbrace (app_name (parse s)) = false ->
+  forallb (fun kv => negb (has c_colon (fst kv))) (parse s) = true ->
+  key_ok (parse s).
+Proof. exact parse_key_ok. Qed.
+Print Assumptions C07_names_admitted.
+
+(* app{a=1,u=http://x/y.z}, app{a=1}, b{a=1}; delete app{u=http://x/y.z}; query app{a=1} *)
+Example C07_selector_exact_nonvacuous :
+  let k1 := parse [97;112;112;123;97;61;49;44;117;61;104;116;116;112;58;47;47;120;47;121;46;122;125] in
+  let k2 := parse [97;112;112;123;97;61;49;125] in
+  let k3 := parse [98;123;97;61;49;125] in
+  let q := parse [97;112;112;123;117;61;104;116;116;112;58;47;47;120;47;121;46;122;125] in
+  let ops := [IPut k1 [115;49] 1; IPut k2 [115;50] 2; IPut k3 [115;51] 4; IDelete q; IPut k1 [115;49] 8] in
+  forallb (fun o => match o with IPut K _ _ | IDelete K =>
+     negb (has c_lbrace (app_name K)) && forallb (fun kv => negb (has c_colon (fst kv))) K end) ops = true /\
+  List.length (live ops) = 3%nat /\
+  ix_select_series k2 (ix_run ops) = Some [normalized k1; normalized k2] /\
+  ix_get k2 (ix_run ops) = Some [([115;49], 8); ([115;50], 2)].
+Proof. vm_compute. auto. Qed.
+
+(* --- label listings --- *)
+Theorem C07_labels_verbatim : forall ops K s c k v, In (IPut K s c) ops -> In (k, v) K ->
+  In k (get_keys (ix_labels (ix_run ops))) /\ In v (get_values k (ix_labels (ix_run ops))).
+Proof. exact labels_verbatim. Qed.
+Print Assumptions C07_labels_verbatim.
+
+Theorem C07_apps_listed : forall ops K s c, In (IPut K s c) ops -> lget name_key K <> None ->
+  In (app_name K) (get_values name_key (ix_labels (ix_run ops))).
+Proof. exact apps_listed. Qed.
+Print Assumptions C07_apps_listed.
+
+Example C07_labels_nonvacuous :
+  let k1 := parse [97;112;112;123;117;61;104;116;116;112;58;47;47;120;47;121;46;122;125] in   (* app{u=http://x/y.z} *)
+  let st := ix_run [IPut k1 [115] 1; IDelete k1] in
+  get_values [117] (ix_labels st) = [[104;116;116;112;58;47;47;120;47;121;46;122]] /\
+  get_keys (ix_labels st) = [name_key; [117]] /\ get_values name_key (ix_labels st) = [[97;112;112]].
+Proof. vm_compute. auto. Qed.
